@@ -1,6 +1,7 @@
 // C03 — PCondVariable: atomic release-and-wait, owner on return, signal wakes >= 1, broadcast wakes all.
 #include "common.h"
 #include <deque>
+#include <vector>
 
 using namespace hx;
 
@@ -53,12 +54,15 @@ void signal_c(PCondVariable *c, int cnum, bool locked = true) {
     probe("cond.notify_without_mutex");
     return;
   }
+  // (a waiter may still be on its way into the native wait when the call starts - an implementation with a private lock lets it
+  //  finish parking during the call - so the oracle counts wake-ups delivered, not the size of the parked set)
   int w0 = shim::cond_waiters(cnum);
+  uint64_t wk0 = shim::cond_wakes(cnum);
   pboolean r = HX_API("p_cond_variable_signal", 1 + cnum, false, p_cond_variable_signal(c));
   if (!r) violate("signal_returned_false", "p_cond_variable_signal", "signal returned FALSE");
   if (w0 >= 1) {
     probe("cond.signal_with_waiter");
-    if (shim::cond_waiters(cnum) >= w0) violate("signal_woke_nobody", "p_cond_variable_signal", "%d task(s) were waiting, signal returned TRUE, nobody was woken", w0);
+    if (shim::cond_wakes(cnum) == wk0) violate("signal_woke_nobody", "p_cond_variable_signal", "%d task(s) were waiting, signal returned TRUE, nobody was woken", w0);
   }
 }
 void broadcast_c(PCondVariable *c, int cnum, bool locked = true) {
@@ -68,10 +72,14 @@ void broadcast_c(PCondVariable *c, int cnum, bool locked = true) {
     return;
   }
   int w0 = shim::cond_waiters(cnum);
+  std::vector<int> ids = shim::cond_waiter_ids(cnum);
+  std::vector<uint64_t> wk0; for (int id : ids) wk0.push_back(shim::task_cond_wakes(id));
   pboolean r = HX_API("p_cond_variable_broadcast", 1 + cnum, false, p_cond_variable_broadcast(c));
   if (!r) violate("broadcast_returned_false", "p_cond_variable_broadcast", "broadcast returned FALSE");
   if (w0 >= 2) probe("cond.broadcast_with_2_waiters");
-  if (shim::cond_waiters(cnum) != 0) violate("broadcast_left_waiters", "p_cond_variable_broadcast", "%d of %d waiters still parked after broadcast", shim::cond_waiters(cnum), w0);
+  // every task that was parked when the call started has been woken (whoever parks during the call may stay)
+  int left = 0; for (size_t i = 0; i < ids.size(); i++) if (shim::task_cond_wakes(ids[i]) == wk0[i]) left++;
+  if (left) violate("broadcast_left_waiters", "p_cond_variable_broadcast", "%d of %d waiters still parked after broadcast", left, w0);
 }
 
 void producer(int id, int n) {
